@@ -28,7 +28,8 @@ Cases == JsonDeserialize(IOEnv.CASES)
 VARIABLES tid, l, verdict
 jvars == <<job, m, tid, l, verdict>>
 
-MaxModelOps == 6000
+\* (the harness chooses stop conditions that the real tool reaches within a few hundred instructions)
+MaxModelOps == 1500
 
 -----------------------------------------------------------------------------
 \* "r[X] - the 'X' register"
@@ -124,7 +125,7 @@ FinalClause(c, j, x) ==
 Soften(c, cl) ==
   IF cl = "ok" \/ c.soft = "" THEN cl
   ELSE IF cl \in {"drift:timestamp-after", "drift:registers-before", "drift:tstates-before-operations"} THEN cl
-  ELSE IF cl = "harness:flag-mask" \/ cl = "harness:runaway" \/ cl = "undefined:domain" THEN cl
+  ELSE IF cl = "harness:flag-mask" \/ cl = "undefined:domain" THEN cl
   ELSE "drift:" \o c.soft \o ":" \o cl
 
 -----------------------------------------------------------------------------
@@ -156,7 +157,7 @@ JStep ==
   /\ Cases[tid].exc = ""
   /\ StepAction
   /\ LET c == Cases[tid]
-         cl == IF m.ops >= MaxModelOps THEN "harness:runaway"
+         cl == IF m.ops >= MaxModelOps THEN "machine-runs-on-where-the-tool-stopped"
                ELSE IF ~m'.ok THEN "undefined:domain"
                ELSE IF c.vlevel = 0 THEN "ok"
                ELSE IF l > Len(c.lines) THEN "stopped-early"
